@@ -347,6 +347,7 @@ type ScenCfg struct {
 	NoRest     bool // do not emit plain tokens that would become remaining arguments
 	MaxOccPer  int
 	PosTextFn  func(r *Rand, a *PosArg) string
+	PCmdWordAsPos int // % of positional tokens that equal a sub-command name of the current command
 	SkipReq    bool // never mention required options spontaneously (the caller supplies a chosen subset)
 	PUnknown   int  // % of steps that emit an unknown option token (only under IgnoreUnknown: passed through)
 	Focus      *Opt // an option the scenario should mention FocusN times
@@ -582,13 +583,23 @@ func GenScenario(r *Rand, d *Decl, cfg *ScenCfg) *Scenario {
 			if len(w.pending) > 0 {
 				a := w.pending[0]
 				tok := w.posText(a)
-				if optionShaped(tok) || (pdd && tok == "--") || w.scope.Cmds[tok] != nil {
+				cmdWord := false
+				if cfg.PCmdWordAsPos > 0 && a.T.K == KString && len(w.cur.Subs) > 0 && r.Chance(cfg.PCmdWordAsPos, 100) {
+					// a token that happens to equal a sub-command name or alias: positionals are filled first
+					sc := w.cur.Subs[r.Intn(len(w.cur.Subs))]
+					tok = sc.Name
+					if len(sc.Aliases) > 0 && r.Bool() {
+						tok = sc.Aliases[r.Intn(len(sc.Aliases))]
+					}
+					cmdWord = true
+				}
+				if optionShaped(tok) || (pdd && tok == "--") || (!cmdWord && w.scope.Cmds[tok] != nil) {
 					continue
 				}
 				w.items = append(w.items, &Item{Kind: IPos, Tok: tok})
 				w.bindPlain(tok)
-				if pano {
-					w.passed = true
+				if pano && !cmdWord {
+					w.passed = true // (a command word is exempt from PassAfterNonOption's early exit)
 				}
 				continue
 			}
@@ -950,8 +961,9 @@ func Denote(d *Decl, items []*Item) *Denotation {
 				w.exp.occur(it.Opt, &t)
 			}
 		case IPos:
+			isCmdWord := w.scope.Cmds[it.Tok] != nil
 			w.bindPlain(it.Tok)
-			if pano {
+			if pano && !isCmdWord {
 				w.passed = true
 			}
 		case IRaw:
